@@ -435,6 +435,11 @@ func (w *World) decodeArg(d DepSpec, v reflect.Value) ArgRec {
 		}
 		return a
 	}
+	if d.T == TVoid && d.Group == "" {
+		// a dependency on a named initializer function: the value is an empty struct
+		a.Present = true
+		return a
+	}
 	toEntry := func(x reflect.Value) *Entry {
 		if (x.Kind() == reflect.Pointer || x.Kind() == reflect.Interface) && x.IsNil() {
 			return nil
